@@ -103,6 +103,7 @@ type Lockset struct {
 	// unmodelled external invoke methods seen on tracked interface objects
 	Unmodelled map[string]bool
 
+	collected bool
 	fieldFx  map[*ssa.Function]map[*types.Var]bool // transitive accesses to fields of tracked pointee types: field -> written?
 	paramExt map[*ssa.Function]map[int]bool        // param index -> written? (external interface objects)
 }
